@@ -6,6 +6,8 @@ import GoSandbox.Model.DriverC18
 import GoSandbox.Model.DriverC09
 import GoSandbox.Model.DriverC15
 import GoSandbox.Model.DriverC08
+import GoSandbox.Model.DriverC04
+import GoSandbox.Model.DriverC06
 
 open GoSandbox
 
@@ -17,6 +19,9 @@ def dispatch (ws : List String) : Option String :=
     else if cmd.startsWith "c09." then Driver.C09.handle ws
     else if cmd.startsWith "c15." then Driver.C15.handle ws
     else if cmd.startsWith "c08." then Driver.C08.handle ws
+    else if cmd.startsWith "c04." then Driver.C04.handle ws
+    else if cmd.startsWith "c06." then Driver.C06.handle ws
+    else if cmd.startsWith "c07." then Driver.C07.handle ws
     else none
 
 partial def loop (hin hout : IO.FS.Stream) : IO Unit := do
